@@ -68,6 +68,9 @@ pub enum Off {
     Huge(V),
 }
 impl Off {
+    pub fn val_pub(&self) -> U {
+        self.val()
+    }
     fn val(&self) -> U {
         match self {
             Off::Small(x) => U::from(*x % 700),
@@ -76,6 +79,12 @@ impl Off {
             Off::Huge(v) => v.val(),
         }
     }
+}
+pub fn off_strategy_pub() -> impl Strategy<Value = Off> {
+    off_strategy()
+}
+pub fn len_strategy_pub() -> impl Strategy<Value = Off> {
+    len_strategy()
 }
 fn off_strategy() -> impl Strategy<Value = Off> {
     prop_oneof![
